@@ -238,6 +238,14 @@ def run_c19(tier):
         tag = "static-%d" % b
         native = Proc("C19-%s" % tag, [binpath("plain", "staticgen"), "--seed", str(gseed), "--out", part_path("C19", tag)], part_path("C19", tag))
         res = run_proc(native)
+        # the generated programs are safe Rust: a fatal signal (SIGSEGV, SIGBUS, SIGILL, SIGFPE, SIGABRT) can only
+        # come from the library's own unsafe code (the pointer-offset delegators of the auto-flush expansion).
+        # SIGKILL (memory pressure, watchdog) stays inconclusive.
+        if res["rc"] is not None and res["part"] is None and (-res["rc"] in (11, 7, 4, 8, 6) or res["rc"] in (139, 135, 132, 136, 134)):
+            sig = -res["rc"] if res["rc"] < 0 else res["rc"] - 128
+            res["part"] = {"property": "C19", "engine": "static", "seed": gseed, "evaluations": 0, "distinct": [], "rule": "", "counters": {}, "samples": [],
+                           "violations": [{"signature": "generated-program-crashed:generated-program", "rule": "generated-program-crashed", "explanation": "the generated driver (safe Rust over the macro expansion) died with signal %d (log %s)" % (sig, res["log"]), "replay": {"property": "C19", "engine": "static", "seed": gseed, "count": count}}], "inconclusive": None}
+            res["rc"] = 1
         results.append(res)
         tagv = "memcheck-%d" % b
         vg = Proc("C19-%s" % tagv, ["valgrind", "--error-exitcode=9", "-q", "--num-callers=30", binpath("plain", "staticgen"), "--seed", str(gseed), "--only-auto-flush", "--out", part_path("C19", tagv)], part_path("C19", tagv), timeout=3600)
